@@ -1095,19 +1095,9 @@ inline void DnsMessage::validateRdataSecurity(const DnsResourceRecord &rr)
     }
   }
 
-  // Validate other record types that should never contain compression pointers in RDATA
-  if (rr.type == DnsType::TXT || rr.type == DnsType::AAAA)
-  {
-    for (std::size_t i = 0; i + 1 < rr.rdata.size(); ++i)
-    {
-      if ((rr.rdata[i] & constants::DNS_COMPRESSION_MASK) == constants::DNS_COMPRESSION_MASK)
-      {
-        throw DnsParseException("Malicious compression pointer detected in " +
-                                std::to_string(static_cast<std::uint16_t>(rr.type)) +
-                                " record RDATA at offset " + std::to_string(i));
-      }
-    }
-  }
+  // AAAA and TXT RDATA contain no domain names, so none of their bytes can be a
+  // compression pointer: an address such as fe80::1 or fd00::1, or UTF-8 text, is
+  // legitimate data (every byte >= 0xC0 used to be rejected as "malicious").
 
   // Additional validation for other record types that shouldn't have compression pointers
   // in specific parts of their RDATA could be added here in the future
